@@ -16,7 +16,21 @@ CFG = {
             "the handshake / a dialer that hangs until its context ends. noanswer: handshake + request accepted, never answered. "
             "cancel: caller cancels 0-250 ms into an exchange. Oracle: control back by deadline + 250 ms (3 immediate "
             "re-runs before alarming) with exactly the expected response or an error; a handler that read its arguments without "
-            "error read exactly what was sent. Every run counts as non-trivial; distinct by model input (exchange bytes, direction, offset).",
+            "error read exactly what was sent. Every run counts as non-trivial; distinct by model input (exchange bytes, direction, offset). "
+            "Scenario sub-engines are cases with structured inputs (c05dialq: kind, deadlines, stagger; c05noanswer: deadline; "
+            "c05cancel: deadline, cancel moment, peer answers; c05relay: hop, direction, offset, mode, stream length) against "
+            "Model/CallScen.v (run_path over the generated wait-site table, sites looked up by function name): per caller "
+            "[failed, moment control was back] with the moment canonicalised to the predicted one within [-20 ms, +250 ms], up to 4 runs. "
+            "c05budget: 69 (quick) (context deadline, connect timeout) pairs incl. timeout unset/negative/below/equal/above the deadline "
+            "and a context without deadline, Channel.Connect directly and via BeginCall, through a ChannelOptions.Dialer that records its "
+            "context's deadline and a net.Conn wrapper that records SetDeadline calls and I/O without a deadline; model = Model/Budget.v "
+            "run_c05budget evaluated at both ends of the interval the library's clock readings lie in; oracle: dialer context and handshake "
+            "deadline end no later than the caller's context, no handshake I/O without a deadline, 5 s without a context deadline. "
+            "hostile (sub fragr): 1500 (quick) hostile fragment lists (valid layouts mutated: more-flags, forged/changed checksum fields and "
+            "types, dropped/duplicated/swapped/appended fragments, chunk-less fragments, extra chunks; checksums re-sealed in 80%) under "
+            "protocol-following, stray and random Begin/Read/Close/helper scripts through the real parseInboundFragment + "
+            "fragmentingReader against Model/FragWire.v run_fragr; oracle: no panic, errors sticky, Complete only on a verified "
+            "well-formed prefix (checksums recomputed with hash/crc32), three successful helper reads return what that prefix denotes.",
     "trusted_base": COMMON_TRUSTED + [
         "regenerated from source on every run (go2v/waitsites.go -> Gen/GenWaitSites.v): the table of blocking statements of the "
         "outbound call path (closure of the call API under the static call graph: select without default, bare channel "
@@ -26,8 +40,15 @@ CFG = {
         "modelled by hand, tied by correspondence (engine cut): connection.go readFrames loop over a finite byte stream, dispatch "
         "by message id, recvNextFragment/recvPeerFrameOfType/parseInboundFragment, the three ArgReadHelper reads of raw.ReadArgsV2, "
         "on top of the frame, fragment-parser and fragmentingReader models of C06/C01",
-        "modelled by hand, NOT tied by correspondence (oracle scenarios dialq/noanswer/cancel only): the time-abstract call path "
-        "(Model/CallPath.v run_path), the new-connection semaphore of peer.go as a transition system, connect/handshake budgets",
+        "modelled by hand, tied by the scenario correspondence (c05dialq/c05noanswer/c05cancel) only at the level of predicted return "
+        "moments: the time-abstract call path (Model/CallPath.v run_path) over the generated wait-site table; NOT tied: the "
+        "new-connection semaphore of peer.go as a transition system",
+        "regenerated from source on every run (go2v target setInitDeadline -> Gen/GenBudget.v, proved equal to the hand-written "
+        "init_deadline); hints (trusted): time.Now() => now, ctx.Deadline() => (ctx_has, ctx_deadline), the result is the argument of "
+        "c.SetDeadline. Channel.Connect's context.WithTimeout is modelled by hand (Model/Budget.v connect_ctx) and tied by the "
+        "c05budget correspondence; the semantics of context.WithTimeout itself is the Go standard library's",
+        "the fragment reader model on hostile fragment lists (premise of C05_one_outcome / C05_success_is_denotation) is tied by the "
+        "hostile sub-engine of this check (structured fragments that the real parser accepts) and by C01/C03's engines",
     ],
     "assumptions": [
         "wall-clock behaviour is not provable: the Go runtime wakes a select / a blocked net.Conn call within scheduling slack once "
